@@ -6,75 +6,7 @@ import subprocess
 
 VERIF = os.path.dirname(os.path.dirname(os.path.abspath(__file__)))
 
-CHECKS = {
-    "C01": dict(cat="proof", technique="Lean 4 theorem (stack-path + rightmost-derivation invariant over the driver model) + verified certificates evaluated on the implementation's automaton/table + differential correspondence",
-                text="Kernel-checked theorem C01_sound: for every table passing the decidable certificates gramWF/certA/certT, every input and fuel, an accepting run's reductions are a rightmost derivation of exactly the input. The certificates are evaluated by the compiled Lean model on the implementation's own LR0Closure and GTable for every generated grammar, so for each grammar explored the claim about all inputs rests on the theorem.",
-                note="Trusted: Lean kernel; compiled ymodel evaluates the certificates; Go harness dump; the driver model is tied to the generated code by execution of compiled parsers (C08 check). Axioms: propext, Quot.sound, Classical.choice at most.",
-                ref="DESIGN.md §5 C01"),
-    "C02": dict(cat="proof", technique="Lean 4 theorems (completeness simulation over lookahead-annotated items; Bool-certificate bridges) + completeness certificate certC evaluated on the implementation's table + Earley oracle",
-                text="Kernel-checked: the completeness simulation Y.sim (a conflict-free, closed, lookahead-annotated item system drives the parser through every derivation) and the bridges from Bool checks to its hypotheses (LA_in_table, firstOf_sets). Per grammar: LALR(1)-ness is decided by the verified lookahead oracle on the implementation's automaton, certC is evaluated on the implementation's GTable, and every Earley-recognised sentence up to a bound plus sampled sentences must be accepted by the driver model on that table (and no non-sentence).",
-                note="Partial: the glue from certC to the hypotheses of Y.sim is validated per grammar rather than stated as one theorem. Trusted: Lean kernel, ymodel, harness, Earley oracle in cfg.py.",
-                ref="DESIGN.md §5 C02"),
-    "C03": dict(cat="proof", technique="Lean 4 theorem LALR propagation fixpoint = union over canonical LR(1) states with the same core (LA_iff) used as verified oracle for the implementation's DeRemer-Pennello output",
-                text="Kernel-checked LA_iff: the least solution of the LALR(1) propagation rules over the LR(0) automaton equals the union of the lookaheads of the canonical LR(1) states reached by the state's access paths; LA_in_table: a table passing the Bool closure check contains every such fact. Per grammar the implementation's (state, rule) lookahead sets are compared as sets with the fixpoint computed on the implementation's own automaton, and its conflict warnings (cell level) with the unresolved conflicts predicted from those lookaheads.",
-                note="The DeRemer-Pennello algorithm itself is validated per grammar, not verified for all grammars. Trusted: Lean kernel, ymodel, harness hook VerifLookaheads.",
-                ref="DESIGN.md §5 C03"),
-    "C04": dict(cat="proof", technique="Lean 4 theorems about the Go decision functions translated to Lean on every run (go/ast translator) + specification-function recomputation of every two-way conflict cell + precedence-climbing reference on operator grammars",
-                text="ResolveConflict and UseDefaultResolveConflict are translated statement by statement from LALR/Table.go into Gen/Resolve.lean on every run; the precedence/associativity theorems (higher level wins, %left reduces, %right shifts, %nonassoc errors, default shift, reduce/reduce picks the earlier rule) are proved about that generated text, so an edit of the functions is re-proved or breaks the build. Every two-way conflict cell of every generated grammar is recomputed from the property's rule; whole expressions of random operator tables are grouped against a precedence-climbing reference.",
-                note="Reduce/reduce cells where both rules carry a precedence are treated as unspecified. End-to-end grouping is by execution. Trusted: translator (fails closed), Lean kernel, harness.",
-                ref="DESIGN.md §5 C04"),
-    "C05": dict(cat="proof", technique="Lean 4 theorems on the row-displacement placement invariant (first-fit, non-overlap, cell recovery) + packed-lookup certificate on the implementation's five arrays + differential run of PackTable/UnPackTable on random matrices",
-                text="Kernel-checked abstract core of row displacement: first-fit finds a free displacement, placing preserves the non-overlap invariant, and under the invariant every cell of every placed row is recovered through owner check + value. Per grammar every (state, symbol) cell is looked up through the implementation's packed arrays with the generated Action logic and compared with GTable; random matrices go through the real PackTable/UnPackTable; the Lean mirror of split+pack must reproduce the implementation's arrays byte for byte.",
-                note="Partial: the refinement from the array-based mirror to the abstract placement view is by correspondence, not yet a theorem. Trusted: Lean kernel, ymodel, harness.",
-                ref="DESIGN.md §5 C05"),
-    "C06": dict(cat="proof", technique="Lean 4 theorem (never crash, tokens requested = shifted + 1) over the driver model on certified tables + valid-item/viable-prefix theorems + Earley viable-prefix oracle",
-                text="Kernel-checked C06_safe: on every certified table, for every input and fuel the driver ends in accept, syntaxError or outOfFuel, never in a crash (no out-of-range state, symbol, slice or goto), and at a syntax error exactly shifted+1 tokens were requested. St0_valid/valid_viable: items of canonical LR(0) states are valid, hence consumed input is a viable prefix. Per grammar: all strings up to a bound and mutated sentences through the driver on the implementation's table; for conflict-free grammars the error must come exactly at the first token that cannot continue a sentence (Earley oracle).",
-                note="Partial: termination on every conflict-free grammar is covered by step-bounded execution only; the per-backend error channel is checked by execution of the generated parsers (C08 runs).",
-                ref="DESIGN.md §5 C06"),
-    "C09": dict(cat="proof", technique="Lean 4 certificate theorems on the implementation's automaton + byte-identical executable Lean mirror of the worklist construction + independent canonical-collection reference",
-                text="The implementation's LR0Closure is compared, as a set of item sets with transitions, with an independently computed canonical LR(0) collection (no duplicates, none missing or extra, state 0 = closure of the start item, items sorted); the Lean mirror of ComputeIClosure/ComputeAllGoto must reproduce states and gotos with the implementation's numbering; certA (backward consistency, goto completeness, justification) passes on every automaton.",
-                note="Theorems for this property are being extended (closure correctness of the mirror).",
-                ref="DESIGN.md §5 C09"),
-    "C07": dict(cat="translation_validation", technique="execution of all five generated variants against the Lean driver model with values + independent bottom-up evaluation of the parse tree",
-                text="For every accepted run of every variant the returned value is compared with an independent bottom-up evaluation of the harness's random linear actions over the parse tree rebuilt from the reduction log, and with the Lean driver model (value stack with two union fields) run on the table scraped from the generated file.",
-                note="Theorems for the slot discipline are being added; at present the Lean part is the executable driver model. Trusted: Go toolchain, Node type stripping, harness actions.",
-                ref="DESIGN.md §5 C07"),
-    "C08": dict(cat="translation_validation", technique="differential execution of the five generated variants against each other and against the Lean driver model run on the table scraped from each generated file",
-                text="Every grammar is generated as go, go -u, go -o, go -o -u and typescript through the generator entry points; all Go variants are linked into one binary, TypeScript runs under Node type stripping; on every input all variants must agree on verdict, reduction log, value and tokens requested, and each must equal the Lean driver model run on that file's own table literal.",
-                note="The equivalence of the three hand-maintained loops is established by execution, not yet by a theorem over three loop models.",
-                ref="DESIGN.md §5 C08"),
-    "C10": dict(cat="proof", technique="Lean 4 functional models of lexer, parser and visitor (token-for-token / node-for-node correspondence) + kernel-checked lexer totality + expected-result comparison over random layouts",
-                text="Random abstract file specifications are rendered in many layouts (blanks, tabs, newlines, // and /* */ comments incl. /**/ and **/ endings, optional ';', optional second %%); the implementation's result (rules in order, %prec, actions, start, numbers, tags, precedence, verbatim prologue/union/epilogue) is compared with what the specification says, and tokens, AST and grammar with the Lean front-end model (YLex, YParse, Visitor). Kernel-checked: the lexer model is total with fuel |src|+2.",
-                note="Partial: layout independence itself is established by correspondence and the expected-result comparison, not yet by a theorem over the lexer model.",
-                ref="DESIGN.md §5 C10"),
-    "C11": dict(cat="translation_validation", technique="Lean visitor model (token numbering) vs implementation + scraping of the emitted const block and translate switch for both targets",
-                text="Random declaration mixes: literal codes, explicit numbers and automatic codes are checked for the property's rules (kept, pairwise distinct, -1 reserved) on the implementation's symbol table; the generated Go and TypeScript files are scraped: one constant per named token with its code, none for literals, translate maps exactly code -> symbol; the Lean Visitor model must produce the same symbol table.",
-                note="Theorem C11_codes on the visitor model is planned.", ref="DESIGN.md §5 C11"),
-    "C12": dict(cat="translation_validation", technique="Lean front-end model (visitor + productive fixpoint) vs implementation verdict + specification-level verdict oracle on planted defects",
-                text="Grammars with planted defects (undefined symbol, nonterminal without rule, unproductive nonterminal: self/mutual/start/deep/unreachable) or none, and sampled exhaustive tiny grammars: the implementation's verdict and reason class must equal the property's rule computed from the abstract specification and the Lean front-end model's verdict.",
-                note="Theorem C12_productive_exact on the fixpoint model is planned.", ref="DESIGN.md §5 C12"),
-    "C13": dict(cat="proof", technique="Lean 4 totality theorem of the lexer model + front-end model correspondence + deadline runs of the real CLI on prefixes and random edits",
-                text="Kernel-checked: the lexer model terminates on every text with fuel |src|+2 (lexAll_total). Every prefix (step 23 / 5 bytes) of the example grammars and of rendered random files, hand-written truncations and random edits go through `yaccgo generate` and `yaccgo debug` as child processes under a deadline three orders of magnitude above the normal run time; a hang is re-run alone before being reported; the ASCII texts also go through the in-process front end and must match the Lean front-end model stage by stage.",
-                note="Partial: the parser model's totality is by explicit fuel + correspondence, not yet a theorem.", ref="DESIGN.md §5 C13"),
-    "C14": dict(cat="exploration", technique="repeated runs (fresh processes and same process) compared byte for byte; map-range sites extracted from the source by the translator",
-                text="Every (grammar, option set) pair is generated N times in fresh processes (Go randomises every map iteration, which plays the role of the schedule) and twice in one process; outputs are compared byte for byte. The translator extracts every range-over-map site of non-test code into Gen/Facts.lean.",
-                note="The order-irrelevance theorem over a generation model with an order oracle is planned; at present this is exploration.", ref="DESIGN.md §5 C14"),
-    "C15": dict(cat="proof", technique="Lean 4 refinement lemmas (array+pointer stack refines a list stack; both re-initialisations yield the pristine stack) + histories, context reuse and concurrent contexts under the Go race detector",
-                text="Kernel-checked: push/pop on the growable slice with a stack pointer refine list push/drop, and ParserInit (global) / append-and-reset (context) give abs = [bottom] from any prior state. Execution: shuffled histories with repeats on the global parser, on one reused context, fresh contexts, up to 16 concurrent contexts (3 rounds each) under -race, and the TypeScript parser; every result must equal the pure-function result of the Lean driver model.",
-                note="Partial: memory-level races are covered by the race detector only.", ref="DESIGN.md §5 C15"),
-    "C16": dict(cat="other", technique="toolchain acceptance (go build, Node loader) of all five variants for random grammars over a name/literal/tag pool, minimal prologue and epilogue",
-                text="Random grammars over a pool of symbol names (underscores, digits, non-ASCII letters), character literals incl. quote, percent, braces and backquote, explicit numbers, random tags, rule lengths 0-5, actions containing comments; minimal prologue (package + import fmt) and epilogue (GetToken only); every generated file must build with go build / load under Node.",
-                note="Compiles is decided by the real toolchains; TypeScript is type-stripped, not type-checked (no tsc in the sandbox). A Lean theorem about the lexical safety of the dynamic fragments is planned.", ref="DESIGN.md §5 C16"),
-    "C17": dict(cat="translation_validation", technique="printed trace of the Go variants replayed against the implementation's LR(0) automaton and the reduction log, and compared with the Lean driver model's event list",
-                text="With IsTrace on, every printed line of every run of the four Go variants is parsed and replayed: shifts must follow the automaton on the input tokens, every reduce line must print the text of the rule actually reduced and the lookahead that triggered it, its goto must be the automaton's and be followed by its push line; the Lean driver model's trace events must equal the printed lines.",
-                note="A theorem over the trace field of the driver model is planned.", ref="DESIGN.md §5 C17"),
-    "C18": dict(cat="translation_validation", technique="parsing of the DOT graph object and of the debug listing, compared with LR0Closure / GTable / hooked lookaheads of the same run",
-                text="For every grammar the graph returned by DrawGrammar (nodes, item texts, edges, reduce annotations, accept decoration) and the stdout of debug mode (states, items, transitions, lookahead sets) are parsed and compared with the automaton, the dense table and the lookaheads of the same run.",
-                note="Names containing the renderers' separators are outside the domain.", ref="DESIGN.md §5 C18"),
-    "C19": dict(cat="fault_enumeration", technique="enumeration of input-caused failure kinds x targets with a pre-existing output file through the real CLI; call order of the generators extracted by the translator",
-                text="Every failure kind (lexical, unterminated comment/brace, syntax, undefined symbol, nonterminal without rule, unproductive nonterminal, $n out of range, $0, truncated, empty) and random mutated files, for go, go -o -u and typescript, each with a pre-existing output file: after a non-zero exit the file must be byte-identical; after success the file must end with the epilogue.",
-                note="OS file semantics are assumed. The step-order theorem over the abstract file system is planned.", ref="DESIGN.md §5 C19"),
-}
+CHECKS = json.load(open(os.path.join(VERIF, "lib", "manifest_checks.json")))
 
 NOT_YET = {
 }
